@@ -212,6 +212,54 @@ package table
 //@   loop 1 invariant[m] t.#lock_mu == 2 && m != nil && fresh(m) && bindingSet(m) && (forall k string :: {$vis[k]} $vis[k] ==> has(t2.mbs, k)) && (forall k string :: {has(m, k)} has(m, k) <==> (has(t.mbs, k) || $vis[k])) && t.mbs == old(t.mbs) && t.Data == old(t.Data)
 //@   loop 2 invariant[bindings] t.#lock_mu == 2 && t.mbs != nil && fresh(t.mbs) && bindingSet(t.mbs) && (forall k string :: {has(t.mbs, k)} has(t.mbs, k) <==> (has(old(t.mbs), k) || has(t2.mbs, k))) && t.Data == old(t.Data)
 //@   loop 3 invariant[rows] t.#lock_mu == 2 && 0 <= $i && $i <= len(td) && td == old(t.Data) && cnt == $i * len(t2.Data) && len(t.Data) == len(td) * len(t2.Data) && bindingSet(t.mbs) && (forall k string :: {has(t.mbs, k)} has(t.mbs, k) <==> (has(old(t.mbs), k) || has(t2.mbs, k)))
+//@   loop 3 invariant[row-starts] forall i int :: {i * len(t2.Data)} 0 <= i && i < $i ==> i * len(t2.Data) + len(t2.Data) <= $i * len(t2.Data)
 //@   loop 3 invariant[done] forall i int, j int :: {td[i], t2.Data[j]} 0 <= i && i < $i && 0 <= j && j < len(t2.Data) ==> mergeOf(t.Data[i * len(t2.Data) + j], td[i], t2.Data[j])
 //@   loop 4 invariant[rows] t.#lock_mu == 2 && 0 <= $outer && $outer < len(td) && 0 <= $i && $i <= len(t2.Data) && td == old(t.Data) && cnt == $outer * len(t2.Data) + $i && len(t.Data) == len(td) * len(t2.Data) && bindingSet(t.mbs) && (forall k string :: {has(t.mbs, k)} has(t.mbs, k) <==> (has(old(t.mbs), k) || has(t2.mbs, k)))
+//@   loop 4 invariant[row-starts] forall i int :: {i * len(t2.Data)} 0 <= i && i < $outer ==> i * len(t2.Data) + len(t2.Data) <= $outer * len(t2.Data)
 //@   loop 4 invariant[done] forall i int, j int :: {td[i], t2.Data[j]} 0 <= i && 0 <= j && j < len(t2.Data) && (i < $outer || (i == $outer && j < $i)) ==> mergeOf(t.Data[i * len(t2.Data) + j], td[i], t2.Data[j])
+
+//@ func (t *Table) AppendTable
+//@   opt terminates
+//@   requires t != nil && t.#lock_mu == 0 && bindingSet(t.mbs) && (t2 != nil ==> bindingSet(t2.mbs))
+//@   modifies t.mbs, t.AvailableBindings, t.Data, t.#lock_mu
+//@   ensures[lock] t.#lock_mu == 0
+//@   ensures[nil-table] t2 == nil ==> result == nil && t.Data == old(t.Data) && t.mbs == old(t.mbs)
+//@   ensures[error-leaves-table] result != nil ==> t.Data == old(t.Data) && t.mbs == old(t.mbs) && t.AvailableBindings == old(t.AvailableBindings)
+//@   ensures[empty-target-accepts] t2 != nil && old(len(t.AvailableBindings)) == 0 ==> result == nil && t.mbs == t2.mbs && t.AvailableBindings == t2.AvailableBindings
+//@   ensures[appended] t2 != nil && result == nil ==> len(t.Data) == old(len(t.Data)) + len(t2.Data) && (forall j int :: {t.Data[j]} 0 <= j && j < old(len(t.Data)) ==> t.Data[j] == old(t.Data[j])) && (forall j int :: {t2.Data[j]} 0 <= j && j < len(t2.Data) ==> t.Data[old(len(t.Data)) + j] == t2.Data[j])
+
+//@ func (t *Table) unsafeAddBindings
+//@   opt terminates
+//@   requires t != nil && t.mbs != nil && bindingSet(t.mbs)
+//@   modifies t.AvailableBindings, contents(t.mbs)
+//@   ensures[bindings] bindingSet(t.mbs) && (forall k string :: {has(t.mbs, k)} has(t.mbs, k) <==> (old(has(t.mbs, k)) || exists j int :: {bs[j]} 0 <= j && j < len(bs) && bs[j] == k))
+//@   loop 0 invariant 0 <= $i && $i <= len(bs) && bindingSet(t.mbs) && (forall k string :: {has(t.mbs, k)} has(t.mbs, k) <==> (old(has(t.mbs, k)) || exists j int :: {bs[j]} 0 <= j && j < $i && bs[j] == k))
+
+//@ func (t *Table) AddBindings
+//@   opt terminates
+//@   requires t != nil && t.#lock_mu == 0 && t.mbs != nil && bindingSet(t.mbs)
+//@   modifies t.AvailableBindings, contents(t.mbs), t.#lock_mu
+//@   ensures[lock] t.#lock_mu == 0
+//@   ensures[bindings] bindingSet(t.mbs) && (forall k string :: {has(t.mbs, k)} has(t.mbs, k) <==> (old(has(t.mbs, k)) || exists j int :: {bs[j]} 0 <= j && j < len(bs) && bs[j] == k))
+
+// extends(x, r): row x has every binding of row r with the same cell.
+//@ spec macro extends(x Row, r Row) Bool = forall k string :: {has(r, k)} has(r, k) ==> has(x, k) && x[k] == r[k]
+//@ spec macro leftRowsKept(nw []Row, old []Row) Bool = forall i int :: {old[i]} 0 <= i && i < len(old) ==> exists j int :: {nw[j]} 0 <= j && j < len(nw) && extends(nw[j], old[i])
+
+// joinWithRange: merge join over the shared bindings. Its body sorts both tables through slice
+// values that alias the tables' backing arrays, which the verifier's slice model cannot represent:
+// the contract below is ASSUMED (nobody), not proved.
+//@ func joinWithRange
+//@   nobody
+//@   requires t != nil && t2 != nil && t != t2 && t.#lock_mu == 0 && t2.#lock_mu == 0
+//@   modifies t.mbs, t.AvailableBindings, t.Data, t2.Data, t.#lock_mu, t2.#lock_mu
+//@   ensures t.#lock_mu == 0 && t2.#lock_mu == 0 && leftRowsKept(t.Data, old(t.Data))
+
+// LeftOptionalJoin (C10): no row of the left table is lost.
+//@ func (t *Table) LeftOptionalJoin
+//@   opt terminates
+//@   requires t != nil && t2 != nil && t != t2 && t.#lock_mu == 0 && t2.#lock_mu == 0 && bindingSet(t.mbs) && bindingSet(t2.mbs)
+//@   modifies t.mbs, t.AvailableBindings, t.Data, t2.Data, t.#lock_mu, t2.#lock_mu
+//@   ensures[lock] t.#lock_mu == 0 && t2.#lock_mu == 0
+//@   ensures[no-error] result == nil
+//@   ensures[left-rows-kept] leftRowsKept(t.Data, old(t.Data))
